@@ -174,7 +174,12 @@ def check_tree(ctx, st, label):
     if any(nodes[j - 1]['kind'] == 'W' for j in left):
       ctx.violation('a jointless body survived fuse_bodies', {'xml': xml, 'fused': fused_xml},
                     {'call': 'fuse_bodies', 'predicate': 'not_fused'})
-  f_obs, f_M, f_mass = mj_eval(fused_xml, nodes)
+  try:
+    f_obs, f_M, f_mass = mj_eval(fused_xml, nodes)
+  except Exception as e:  # the fused document no longer compiles in the reference engine although the original does
+    ctx.violation(f'fuse_bodies produced a document the reference engine rejects: {type(e).__name__}: {str(e)[:200]}',
+                  {'xml': xml, 'fused_xml': fused_xml}, {'call': 'fuse_bodies', 'predicate': 'invalid_output'})
+    return
   wk = sorted({('pos' if not is_zero(n['pos']) else '') + ('quat' if not is_id(n['quat']) else '') or 'neither'
                for n in nodes if n['kind'] == 'W'})
   ctx.case(key=xml, nontrivial=any(k != 'neither' for k in wk),
@@ -202,6 +207,70 @@ def check_tree(ctx, st, label):
                     {'xml': xml, 'fused_xml': fused_xml}, {'call': 'fuse_bodies', 'predicate': 'mass'})
 
 
+def relational_documents(ctx, states, r):
+  """The same tree shapes with poses outside the decimal-exact tables: offsets of tens to thousands of metres, generic
+  float rotations, and tiny rotations written with six decimals (so that w prints as 1.000000).  Oracle: MuJoCo on the
+  original document, exactly as the property states."""
+  from brax.io import mjcf
+  import copy
+  n = 0
+  for st in states:
+    nodes = [dict(x) for x in st['src']]
+    mode = r.choice(['far', 'generic', 'tiny'])
+    def P(v):
+      return tuple((int(round(x * 10**6)), 10**6) for x in v)
+    for nd in nodes:
+      if nd['kind'] == 'F':
+        continue
+      if mode == 'far' and r.random() < 0.5:
+        nd['pos'] = P([r.choice([12.5, -120.25, 1203.125, 37.0]) * r.choice([1, -1]), r.uniform(-1, 1), r.uniform(-150, 150)])
+      if mode == 'generic':
+        q = np.array([r.gauss(0, 1) for _ in range(4)])
+        q /= np.linalg.norm(q)
+        if nd['kind'] != 'W' or not is_id(nd['quat']):
+          nd['quat'] = P(q)
+      if mode == 'tiny' and nd['kind'] == 'W' and not is_id(nd['quat']):
+        nd['quat'] = P([1.0, r.choice([0.00045, 0.0, -0.0003]), 0.0, r.choice([0.0006, 0.0002])])     # |q| = 1 + 3e-7
+    xml = render(nodes)
+    try:
+      o_obs, o_M, o_mass = mj_eval(xml, nodes)
+    except Exception:  # a generated document the reference engine itself refuses: skip
+      continue
+    fused = mjcf.fuse_bodies(xml)
+    n += 1
+    ctx.case(key=xml, nontrivial=True, sample={'mode': mode, 'xml': xml} if n == 3 else None)
+    try:
+      f_obs, f_M, f_mass = mj_eval(fused, nodes)
+    except Exception as e:
+      ctx.violation(f'fuse_bodies produced a document the reference engine rejects ({mode}): {str(e)[:200]}',
+                    {'xml': xml, 'fused_xml': fused}, {'call': 'fuse_bodies', 'predicate': 'invalid_output'})
+      continue
+    # %f keeps 6 decimals: 5e-6 per coordinate, compounded over up to 3 fused levels and lever arms
+    tol = 5e-5 if mode != 'far' else 2e-4
+    bad = []
+    for i in o_obs:
+      a, b = o_obs[i], f_obs.get(i)
+      if a is None:
+        continue
+      if b is None or a[0] != b[0]:
+        bad.append(i)
+        continue
+      if a[0] == 'pose':
+        dq = min(np.max(np.abs(np.asarray(a[2]) - np.asarray(b[2]))), np.max(np.abs(np.asarray(a[2]) + np.asarray(b[2]))))
+        if np.max(np.abs(np.asarray(a[1]) - np.asarray(b[1]))) > tol or dq > 5e-5:
+          bad.append(i)
+      else:
+        e1 = max(np.max(np.abs(np.asarray(a[1]) - np.asarray(b[1]))), np.max(np.abs(np.asarray(a[2]) - np.asarray(b[2]))))
+        e2 = max(np.max(np.abs(np.asarray(a[1]) - np.asarray(b[2]))), np.max(np.abs(np.asarray(a[2]) - np.asarray(b[1]))))
+        if min(e1, e2) > tol:
+          bad.append(i)
+    if bad:
+      i = bad[0]
+      ctx.violation(f'fuse_bodies moved element {nodes[i - 1]["kind"]}{i} ({mode} poses): fused {f_obs.get(i)} vs original {o_obs[i]}',
+                    {'xml': xml, 'fused_xml': fused, 'moved': bad}, {'call': 'fuse_bodies', 'predicate': f'moved_{mode}'})
+  ctx.extra['relational_documents'] = n
+
+
 def run(ctx):
   q = ctx.quick
   ctx.rule = ('TLC enumerates 7 tree shapes (1-3 levels of jointless bodies under the world / under jointed bodies / as '
@@ -224,11 +293,16 @@ def run(ctx):
   with open(dump + '.dump') as f:
     txt = f.read()
   n = 0
+  sts = []
   for block in re.split(r'^State \d+:\n', txt, flags=re.M)[1:]:
     if 'nfused = 0' in block and 'wp0 = <<>>' not in block:
-      check_tree(ctx, tlaval.parse_state(block.strip()), 'c13')
+      st = tlaval.parse_state(block.strip())
+      check_tree(ctx, st, 'c13')
+      sts.append(st)
       n += 1
   ctx.extra['trees_replayed'] = n
+  r = core.rng(ctx, 13)
+  relational_documents(ctx, r.sample(sts, min(len(sts), 150 if q else 1500)), r)
   ctx.exhaustive = False
 
 
